@@ -38,7 +38,11 @@ NCall(n) == /\ ncalls < MaxCalls
                  /\ hist' = Append(hist, [op |-> "call", buf |-> b, in |-> Hx!FromBytes(SubSeq(win, pos + 1, pos + n)),
                                           exp |-> Hx!FromBytes(reply'), alt_d4 |-> AltD4(n)])
                  /\ Em!Line(OutFile, ToJson([fam |-> "mode", steps |-> hist']))
-Next == NPick \/ NSetup \/ (\E n \in Cuts : NCall(n)) \/ (phase = "ready" /\ NCall(sc.len - pos))
+(* one SetIV per history, after at least one call, on short messages (each costs a fresh one-shot computation) *)
+NSetIV == /\ phase = "ready" /\ ncalls >= 1 /\ ncalls < MaxCalls /\ sc.len <= 96 /\ sc.ivc = <<>>
+          /\ SetIV(1)
+          /\ hist' = Append(hist, [op |-> "setiv", iv |-> Hx!FromBytes(IV(sc'))])
+Next == NSetIV \/ NPick \/ NSetup \/ (\E n \in Cuts : NCall(n)) \/ (phase = "ready" /\ NCall(sc.len - pos))
 Spec == Init /\ [][Next]_vars
 TypeOK == pos >= 0 /\ (phase = "ready" => pos <= sc.len)
 =============================================================================
